@@ -469,6 +469,12 @@ pub fn c03(rec: &mut Rec, rng: &mut Rng, thorough: bool) {
             if d.conn.is_none() {
                 break;
             }
+            // the payload limit is configuration the caller may change at any time, also between two reads of a body
+            if rng.chance(1, 12) {
+                let l = if rng.chance(1, 2) { rng.below(8) } else { pick_limit(rng) };
+                d.set_limit(rec, l);
+                rec.count("c03:limit-changed-in-use");
+            }
             match rng.below(14) {
                 0..=4 => {
                     let n = match rng.below(5) {
@@ -491,6 +497,11 @@ pub fn c03(rec: &mut Rec, rng: &mut Rng, thorough: bool) {
                     let cuts = gen::cuts(rng, &bytes, 6);
                     for ch in gen::split_at_cuts(&bytes, &cuts) {
                         d.recv(rec, &ch, 0);
+                        if rng.chance(1, 10) {
+                            let l = if rng.chance(2, 3) { rng.below(8) } else { pick_limit(rng) };
+                            d.set_limit(rec, l);
+                            rec.count("c03:limit-changed-inside-request");
+                        }
                         // a read that fails or ends the stream INSIDE a request (between header lines, between
                         // two chunks of a body): the connection is used on, and must not panic afterwards
                         match rng.below(6) {
